@@ -12,6 +12,8 @@ RULE = (
     'chains for different configs that contain a task of the same full name (shared logger name), soft restarts. Every '
     'generated run emits 1-3 tagged messages "tcv|<run id>|<n>|<task>" at debug..error level and 0-3 run-info records '
     '(str, dict, defaultdict); Generator / lazy-generator bodies emit one more tagged message while they are consumed. '
+    'The history may turn a task\'s logger up or down (setLevel WARNING..DEBUG; constructing a task resets it): only '
+    'messages at or above the threshold are expected, and a run that logs nothing must leave an EMPTY log. '
     'Oracle, after EVERY step for every task of every live chain whose location was last written by a successful run of '
     'this history (and once more from a fresh interpreter at the end): run_info.task names slug/class/module; '
     'run_info.parameters = the frozen representation of EVERY declared parameter; run_info.input_tasks = {relative '
@@ -28,7 +30,7 @@ ASSUMPTIONS = [
     'a shared task object reports the namespace / input names of one of its mounts; any sharing mount is accepted',
 ]
 RELEVANT = ['records:']
-KINDS = {'chain': 3, 'value': 9, 'force_task': 2, 'force_chain': 2, 'fault': 3, 'restart': 1, 'inspect': 1}
+KINDS = {'chain': 3, 'value': 9, 'force_task': 3, 'force_chain': 2, 'fault': 3, 'restart': 1, 'inspect': 1, 'loglevel': 2}
 ZY = {}
 TAG = re.compile(r'^tcv\|(\d+)\|')
 
@@ -93,9 +95,10 @@ def check_records(sm, proc, chains_records, info):
                 checked += 1
                 continue
             # the log file
-            want_msgs = records.messages(seq, slug)
-            if t.kind in ('generator', 'lazy'):
-                want_msgs = want_msgs + [records.generator_message(seq, slug)]
+            threshold = lr.get('level', 10)
+            want_msgs = records.messages(seq, slug, threshold)
+            if t.kind in ('generator', 'lazy') and threshold <= 20:
+                want_msgs = want_msgs + [records.generator_message(seq, slug)]   # (logged at INFO)
             if log is None:
                 raise Violation('records:log-missing', inf)
             tagged = [l for l in log if l.startswith('tcv|')]
@@ -108,8 +111,9 @@ def check_records(sm, proc, chains_records, info):
                     'records:log-misses-messages' if [l for l in want_msgs if l not in tagged] else 'records:log-order-or-duplicates')
                 raise Violation(clause, dict(inf, got=tagged[:10], want=want_msgs))
             lib = [l for l in log if not l.startswith('tcv|')]
-            if len([l for l in lib if l.endswith(' - run ended')]) != 1 or len(
-                    [l for l in lib if ' - run started with params: ' in l]) != 1:
+            n_lib = 1 if threshold <= 20 else 0   # the library's own two lines are logged at INFO
+            if len([l for l in lib if l.endswith(' - run ended')]) != n_lib or len(
+                    [l for l in lib if ' - run started with params: ' in l]) != n_lib:
                 raise Violation('records:log-order-or-duplicates', dict(inf, log=log[:12]))
             checked += 1
     return checked
